@@ -39,6 +39,7 @@ let run_case (line : string) : string =
       | ["r"; "same"] -> evs := !evs @ [BReconf BRSame]
       | ["r"; "peer"] -> evs := !evs @ [BReconf BRPeer]
       | ["r"; "gone"] -> evs := !evs @ [BReconf BRGone]
+      | ["r"; "other"] -> evs := !evs @ [BReconf BROthers]
       | _ -> failwith ("bad op: " ^ op)) (split_on ';' line);
   let idn = n !id in
   let live0 = bs_live_of ((if !dup then [n peer_key] else []) @ (if !other then [n other_key] else [])) in
